@@ -387,10 +387,11 @@ class FakeWorker:
         st = self.state()
         return bool(st["serving"] and st["c2s"] == 0 and st["s2c"] == 0 and st["boundary"])
 
-    def kill(self) -> None:
-        """The process dies (SIGKILL): both pipes break."""
+    def kill(self, status: int = -9) -> None:
+        """The process ends with exit status `status` — a signal (negative), a crash (positive) or a CLEAN exit (0: an idle
+        timeout of its own, an orderly shutdown): both pipes break.  `poll()` then returns that status: 0 is as dead as -9."""
         if self.proc.returncode is None:
-            self.proc.returncode = -9
+            self.proc.returncode = status
             self.c2s.close()
             self.s2c.close()
             self.thread.join(QUIESCE_S)
